@@ -29,11 +29,16 @@ type c20dFile struct {
 	Dir, Name, Pkg string
 	Types          []c20dType
 	Free           []string // exported free functions
+	OwnImport      bool     // imports example.com/m/util (a package of the analysed module) and calls util.Do() in every method
 }
 
 func (f c20dFile) source() string {
 	var sb strings.Builder
-	sb.WriteString("package " + f.Pkg + "\n\nimport \"fmt\"\n\n")
+	if f.OwnImport {
+		sb.WriteString("package " + f.Pkg + "\n\nimport (\n\t\"fmt\"\n\n\t\"example.com/m/util\"\n)\n\n")
+	} else {
+		sb.WriteString("package " + f.Pkg + "\n\nimport \"fmt\"\n\n")
+	}
 	for _, t := range f.Types {
 		switch t.Kind {
 		case "struct":
@@ -43,7 +48,11 @@ func (f c20dFile) source() string {
 			}
 			sb.WriteString("}\n\n")
 			for _, m := range t.Methods {
-				sb.WriteString("func (r *" + t.Name + ") " + m + "(n int) {\n\tfmt.Println(n)\n}\n\n")
+				own := ""
+				if f.OwnImport {
+					own = "\tutil.Do()\n"
+				}
+				sb.WriteString("func (r *" + t.Name + ") " + m + "(n int) {\n" + own + "\tfmt.Println(n)\n}\n\n")
 			}
 		case "interface":
 			sb.WriteString("type " + t.Name + " interface {\n")
@@ -122,11 +131,21 @@ func c20DirGen(c *engine.C) engine.Case {
 	if driver {
 		c.Tag("cli")
 	}
+	// the module file of the analysed tree, and a file that imports a package of that very module
+	goMod := map[string]string{"none": "", "several-lines": "module example.com/m\n\ngo 1.13\n", "one-line": "module example.com/m\n", "one-line-without-newline": "module example.com/m",
+		"several-lines-without-final-newline": "module example.com/m\n\ngo 1.13", "crlf": "module example.com/m\r\n\r\ngo 1.13\r\n", "tab-separated": "module\texample.com/m\n"}[engine.PickTag(c, "go.mod", "none", "several-lines", "one-line", "one-line-without-newline", "several-lines-without-final-newline", "crlf", "tab-separated")]
+	if goMod != "" {
+		files[0].OwnImport = true
+		files = append(files, c20dFile{Dir: "util", Name: "util.go", Pkg: "util", Free: []string{"Do"}})
+	}
 	return func() engine.Result {
 		var specs []FileSpec
 		var desc []string
 		for _, f := range files {
 			specs = append(specs, FileSpec{Path: filepath.Join(f.Dir, f.Name), Content: f.source()})
+		}
+		if goMod != "" {
+			specs = append(specs, FileSpec{Path: "go.mod", Content: goMod})
 		}
 		res := engine.Result{InputKey: filesKey(specs) + fmt.Sprint(driver), Input: map[string]interface{}{"files": filesInput(specs), "through_driver": driver}, Nontrivial: true}
 		root, cleanup := materialise(specs)
@@ -192,6 +211,31 @@ func c20DirGen(c *engine.C) engine.Case {
 				}
 			} else if _, ok := freeWant[d.NodeName]; ok {
 				freeGot[d.NodeName] = append(freeGot[d.NodeName], d.Package)
+			}
+		}
+		if goMod != "" {
+			// calls of the module's own package are listed under that package's own name
+			found := 0
+			for _, d := range ds {
+				if d.NodeName != "Config" {
+					continue
+				}
+				for _, fn := range d.Functions {
+					if fn.Name != "Load" {
+						continue
+					}
+					for _, cl := range fn.FunctionCalls {
+						if cl.NodeName == "util" && cl.FunctionName == "Do" {
+							found++
+							if cl.Package != "util" {
+								res.Violations = append(res.Violations, engine.V("go-directory", "own-module-call-package", "go.mod %q: the call util.Do() in %s.%s is listed under package %q, want util", goMod, d.NodeName, fn.Name, cl.Package))
+							}
+						}
+					}
+				}
+			}
+			if found != 1 {
+				res.Violations = append(res.Violations, engine.V("go-directory", "own-module-call-count", "go.mod %q: %d calls util.Do() listed in Config.Load, 1 written (all entries: %v)", goMod, found, desc))
 			}
 		}
 		sort.Strings(want)
